@@ -11,6 +11,8 @@ ENGINES = [
          kind_free_text="rapidcheck-generated scenarios against reproc++ linked to a recording mock of the C API"),
     dict(name="winstub", path="src/winstub + src/props/C18.cpp + src/fuzz/C18_fuzz.cpp", serves_properties=["C18"],
          kind_free_text="Windows sources compiled on stub headers; exhaustive small-scope sweep + rapidcheck + libFuzzer with a round-trip oracle"),
+    dict(name="real", path="src/vsys + src/puppet.c + src/common/harness.cpp", serves_properties=["C03", "C04", "C05", "C06", "C10", "C11", "C12"],
+         kind_free_text="real clock, real kernel: unmodified library objects with libc boundary renamed to the vsys shim (ledger, fault injection), scripted child (puppet) that reports its entry state"),
 ]
 
 
@@ -76,5 +78,31 @@ prop(
         "CreateProcessW, GetEnvironmentStringsW are stubs that record / supply data; real Windows process creation is out of reach",
         "the program token (argv[0]) is drawn from names without quotes that do not end in a backslash (the Windows rule for the program token differs)",
         "the splitters are written from Microsoft's documented rules, not from the code under test",
+    ],
+)
+
+prop(
+    "C03",
+    title="Launch fidelity: argv, environment, working directory and program resolution",
+    level="exploration",
+    engine="real",
+    campaigns=[dict(bin="C03", random=dict(quick=6000, thorough=120000))],
+    level_text=("Each generated case starts the scripted child through the real reproc_start and compares the child's own "
+                "entry snapshot (argv, envp as a sequence, cwd identity, executed image) with what was requested; parent "
+                "environ, cwd depth (to beyond PATH_MAX), program naming (absolute, ./x, a/b/x, ../x, PATH) and a decoy "
+                "program below the child's working directory are generated. Sampling, not proof."),
+    level_note="Trusts the puppet's snapshot code and /proc; kernel exec semantics are the real kernel's. Linux only.",
+    technique="property-based testing (rapidcheck tape) against real child processes; oracle = the child's own report (round-trip)",
+    rule=("argv[1..n] with n in {0, 1-6, 7-40, 100-300}, strings of arbitrary non-NUL bytes (lengths 0, 1-10, 11-300, 1000-100000); "
+          "env.extra NULL / empty / 1-8 / 50-300 NAME=VALUE entries incl. duplicates, empty values, several '='; extend/empty; "
+          "parent environ replaced by 0-200 generated entries; working directory none / absolute / relative / deep; program "
+          "named absolutely, ./x, sub/dir/x, ../d/x or bare through PATH; parent cwd shallow / ~1000 / ~3900 / beyond 4096 bytes. "
+          "Non-trivial: an argument that is empty or has whitespace/quote/backslash/'='/non-ASCII bytes, or extend-mode with extras, or a "
+          "relative program with a working directory, or cwd beyond PATH_MAX. Distinct: hash of all strings and the kind selectors."),
+    essential=dict(quick=["odd-argument", "extend-with-extras", "env-empty", "relative-program+working-directory", "decoy-planted", "cwd-beyond-PATH_MAX", "PATH-search", "many-arguments"]),
+    assumptions=[
+        "PATH-searched programs: PATH is among the inherited parent entries and not overridden by extras (which PATH counts is undocumented)",
+        "beyond PATH_MAX only a clean outcome (success, or a negative return, no memory error, ledger clean) is required",
+        "total argv+env kept below ~600 KB (ARG_MAX), single strings below 128 KiB (MAX_ARG_STRLEN)",
     ],
 )
